@@ -168,6 +168,13 @@ class TocFetcher:
                          self.port, self.nbr_of_items, self._crc)
 
             cache_data = self._toc_cache.fetch(self._crc)
+            if (cache_data and not self._is_own_toc(cache_data)):
+                # The log and param TOCs share one cache keyed by CRC only:
+                # on a CRC collision the cached TOC belongs to the other
+                # port. Treat it as a miss and download.
+                logger.warning('[%d]: Cached TOC is not for this port',
+                               self.port)
+                cache_data = None
             if (cache_data):
                 self.toc.toc = cache_data
                 logger.info('TOC for port [%s] found in cache' % self.port)
@@ -205,6 +212,17 @@ class TocFetcher:
             else:  # No more variables in TOC
                 self._toc_cache.insert(self._crc, self.toc.toc)
                 self._toc_fetch_finished()
+
+    def _is_own_toc(self, cache_data):
+        """Check that a cached TOC only holds elements of our class"""
+        try:
+            for group in cache_data.values():
+                for element in group.values():
+                    if not isinstance(element, self.element_class):
+                        return False
+        except AttributeError:
+            return False
+        return True
 
     def _request_toc_element(self, index):
         """Request information about a specific item in the TOC"""
